@@ -371,7 +371,7 @@ fn run(ctx: &mut Ctx, si: usize, case: u64) {
     let enc = Enc::ALL[ctx.rng.usize_below(4)];
     match si {
         0 => {
-            let mut o = GenOpts::standard();
+            let mut o = GenOpts::unmodelled();
             o.max_syms = 10;
             o.density = 6;
             let (spec, _) = gen_object(&mut ctx.rng, enc, &o);
@@ -388,7 +388,7 @@ fn run(ctx: &mut Ctx, si: usize, case: u64) {
             judge_file(ctx, bytes, &format!("seed {name}"), 40);
         }
         3 => {
-            let mut o = GenOpts::standard();
+            let mut o = GenOpts::unmodelled();
             o.max_syms = 6;
             o.density = 7;
             o.weird_views = ctx.rng.bool();
@@ -406,7 +406,7 @@ fn run(ctx: &mut Ctx, si: usize, case: u64) {
             let kind = ctx.rng.below(5);
             let (bytes, what) = match kind {
                 0 | 1 | 2 => {
-                    let (spec, _) = gen_object(&mut ctx.rng, enc, &GenOpts::standard());
+                    let (spec, _) = gen_object(&mut ctx.rng, enc, &GenOpts::unmodelled());
                     let mut b = build(&spec, &mut ctx.rng);
                     let n = 1 + ctx.rng.usize_below(3);
                     let mut log = if kind == 2 { let k = 1 + ctx.rng.usize_below(4); mutate::maximize_ranges(&mut ctx.rng, &mut b, k) } else { Vec::new() };
@@ -414,7 +414,7 @@ fn run(ctx: &mut Ctx, si: usize, case: u64) {
                     (b.bytes, format!("generated {} + {:?}", enc.name(), log))
                 }
                 3 => {
-                    let (spec, _) = gen_object(&mut ctx.rng, enc, &GenOpts::standard());
+                    let (spec, _) = gen_object(&mut ctx.rng, enc, &GenOpts::unmodelled());
                     let mut b = build(&spec, &mut ctx.rng);
                     let n = 1 + ctx.rng.usize_below(6);
                     mutate::byteflips(&mut ctx.rng, &mut b.bytes, n);
